@@ -34,7 +34,15 @@ def main():
     res = {"name": name, "checks": {}}
     env = dict(os.environ, PYTHONPATH=wt, PYTHONDONTWRITEBYTECODE="1")
     try:
-        demo = os.path.join(d, "demo.py")
+        # the demonstrations locate the tree under test relative to their own path
+        # (<worktree>/SEEDED/<x>/demo.py), so run a copy from exactly there
+        sub = os.path.join(wt, "SEEDED", "x")
+        os.makedirs(sub, exist_ok=True)
+        sh(f"cp {os.path.join(d, 'demo.py')} {sub}/demo.py")
+        demo = os.path.join(sub, "demo.py")
+        tmpd = f"/tmp/evaltmp-{name}"
+        sh(f"rm -rf {tmpd}; mkdir -p {tmpd}")
+        env["TMPDIR"] = tmpd
         rc, out, _ = sh(f"/venv/bin/python {demo}", cwd=wt, env=env, timeout=600)
         res["demo_without_patch_rc"] = rc
         res["demo_without_patch_tail"] = out[-400:]
@@ -47,7 +55,7 @@ def main():
         res["demo_with_patch_rc"] = rc
         res["demo_with_patch_tail"] = out[-600:]
         if not skip_suite:
-            rc, out, secs = sh("/venv/bin/python -m pytest -q -p no:cacheprovider --timeout=900 test 2>&1 | tail -25",
+            rc, out, secs = sh("/venv/bin/python -m pytest -q -p no:cacheprovider -p no:hypothesispytest --timeout=900 test 2>&1 | tail -25",
                                cwd=wt, env=env)
             m = re.search(r"(\d+) failed, (\d+) passed|(\d+) passed", out)
             res["suite_summary"] = m.group(0) if m else out[-300:]
@@ -61,6 +69,7 @@ def main():
     finally:
         sh(f"git -C /repo worktree remove --force {wt}")
         sh("git -C /repo worktree prune")
+        sh(f"rm -rf /tmp/evaltmp-{name}")
     with open(os.path.join(d, "eval.json"), "w") as f:
         json.dump(res, f, indent=1)
     return res
